@@ -9,68 +9,40 @@ Import ListNotations.
 Open Scope string_scope.
 Open Scope Z_scope.
 
-(* ---- kind lsn.hist ----
-   outs: [[cl sock qorg qrx qtx got rorg rrx rtx rref] ...] oldest first; got = 0: no reply datagram arrived *)
-Definition parse_lstep (v : value) : option (bool * lstep) :=
+(* ---- kinds lsn.hist, lsn.slowlink, lsn.fallback ----
+   outs: [[cl sock qorg qrx qtx got rorg rrx rtx rref crx unread fb V W] ...] strict tolerated
+   rows in the order the listener handled the requests; got = 0: no reply datagram arrived;
+   fb = 1: the request reached the listener without kernel receive stamp, V W = the scripted clock
+   readings; strict = 1: every failure report of the listener is attributed to its exchange;
+   tolerated: failure reports that could not be attributed *)
+Definition parse_wrow (v : value) : option (bool * wobs) :=
   match v with
-  | VL [VZ cl; VZ sock; VZ qorg; VZ qrx; VZ qtx; VZ got; VZ rorg; VZ rrx; VZ rtx; VZ rref] =>
+  | VL [VZ cl; VZ sock; VZ qorg; VZ qrx; VZ qtx; VZ got; VZ rorg; VZ rrx; VZ rtx; VZ rref; VZ crx; VZ unread; VZ fb; VZ fv; VZ fw] =>
       Some (got =? 1,
-            {| s_obs := {| l_cl := cl; l_q := {| q_org := qorg; q_rx := qrx; q_tx := qtx |};
+            {| w_obs := {| l_cl := cl; l_q := {| q_org := qorg; q_rx := qrx; q_tx := qtx |};
                            l_org := rorg; l_rx := rrx; l_tx := rtx |};
-               s_ref := rref; s_sock := sock |})
+               w_ref := rref; w_sock := sock; w_crx := crx; w_unread := unread =? 1;
+               w_fb := if fb =? 1 then Some (fv, fw) else None |})
   | _ => None
   end.
 
-Fixpoint parse_lsteps (l : list value) : option (bool * list lstep) :=
+Fixpoint parse_wrows (l : list value) : option (bool * list wobs) :=
   match l with
   | [] => Some (true, [])
   | v :: r =>
-      match parse_lstep v, parse_lsteps r with
+      match parse_wrow v, parse_wrows r with
       | Some (g, s), Some (ga, ss) => Some (g && ga, if g then s :: ss else ss)
       | _, _ => None
       end
   end.
 
-Definition run_lsn (o : list value) : option (bool * bool) :=
+Definition run_wire (seq : bool) (o : list value) : option (bool * bool) :=
   match o with
-  | [VL stepsv] =>
-      match parse_lsteps stepsv with
-      | Some (all_got, steps) =>
-          Some (all_got && C06_lsn_agree steps, C06_lsn_ok (map s_obs steps))
-      | None => None
-      end
-  | _ => None
-  end.
-
-(* ---- kind lsn.slowlink ----
-   outs: [[cl sock qorg qrx qtx got rorg rrx rtx rref crecv unread] ...] in the order the requests were sent *)
-Definition parse_sstep (v : value) : option (bool * sstepr) :=
-  match v with
-  | VL [VZ cl; VZ _; VZ qorg; VZ qrx; VZ qtx; VZ got; VZ rorg; VZ rrx; VZ rtx; VZ rref; VZ crecv; VZ unread] =>
-      Some (got =? 1,
-            {| ss_obs := {| sw_obs := {| l_cl := cl; l_q := {| q_org := qorg; q_rx := qrx; q_tx := qtx |};
-                                         l_org := rorg; l_rx := rrx; l_tx := rtx |};
-                            sw_crecv := crecv; sw_unread := unread =? 1 |};
-               ss_ref := rref |})
-  | _ => None
-  end.
-
-Fixpoint parse_ssteps (l : list value) : option (bool * list sstepr) :=
-  match l with
-  | [] => Some (true, [])
-  | v :: r =>
-      match parse_sstep v, parse_ssteps r with
-      | Some (g, s), Some (ga, ss) => Some (g && ga, if g then s :: ss else ss)
-      | _, _ => None
-      end
-  end.
-
-Definition run_slow (o : list value) : option (bool * bool) :=
-  match o with
-  | [VL stepsv] =>
-      match parse_ssteps stepsv with
-      | Some (all_got, steps) =>
-          Some (all_got && C06_slow_agree steps, C06_slow_ok (map ss_obs steps))
+  | [VL rowsv; VZ strict; VZ tol] =>
+      match parse_wrows rowsv with
+      | Some (all_got, rows) =>
+          Some (all_got && C06_wire_agree seq (Z.to_nat tol) rows,
+                C06_lsn_ok (map w_obs rows) && C06_wire_ok (strict =? 1) rows)
       | None => None
       end
   | _ => None
@@ -101,7 +73,7 @@ Definition full_step (v : value) : option (bool * bool) :=
       match parse_item prev, parse_item postv with
       | Some pre, Some post =>
           let q := {| q_org := org; q_rx := rx; q_tx := tx |} in
-          let orc := C06_handle_ok (ents_of pre) q rxt now rorg rrx rtx rxt' txt' && pairs_ordered (ents_of post)
+          let orc := C06_handle_full_ok (ents_of pre) q rxt now rorg rrx rtx rxt' txt' (option_map oi_ents post) && pairs_ordered (ents_of post)
                      && pairs_ordered (ents_of pre) in
           let agree :=
             match handle real_config (mini_state cid pre) cid q rxt now 0 with
@@ -150,7 +122,7 @@ Definition flood_reply_ok (v : value) : option (bool * bool) :=
   match v with
   | VL [VZ cid; VZ org; VZ rx; VZ tx; VZ rxt; VZ now; VZ rorg; VZ rrx; VZ rtx; VZ rref; VZ rxt'; VZ txt'] =>
       let q := {| q_org := org; q_rx := rx; q_tx := tx |} in
-      let orc := C06_handle_ok [] q rxt now rorg rrx rtx rxt' txt' in
+      let orc := C06_handle_ok [] q rxt now rorg rrx rtx rxt' txt' && C06_rxt_ok [] rxt rxt' in
       let agree := match handle real_config tss_empty cid q rxt now 0 with
                    | Some out => let r := o_reply out in
                                  (r_org r =? rorg) && (r_rx r =? rrx) && (r_tx r =? rtx) && (r_ref r =? rref) &&
@@ -199,12 +171,12 @@ Definition glue_C06 (k : string) (a o : list value) : option verdict :=
     | _ => Some (relational false true)
     end
   else if is k "lsn.hist" then
-    match run_lsn o with
+    match run_wire true o with
     | Some (g, orc) => Some (relational g orc)
     | None => Some (relational false true)
     end
-  else if is k "lsn.slowlink" then
-    match run_slow o with
+  else if is k "lsn.slowlink" || is k "lsn.fallback" then
+    match run_wire false o with
     | Some (g, orc) => Some (relational g orc)
     | None => Some (relational false true)
     end
